@@ -85,33 +85,29 @@ def main():
         res["existing_tests"] = dict(packages=tp, passed=rc == 0, wall_s=round(time.time() - t0, 1))
         if rc != 0:
             res["existing_tests"]["tail"] = out[-1500:]
-        # demonstration
+        # demonstration: the test file goes into the package named by the `go test` part of demo_cmd
         demos = [f for f in glob.glob(os.path.join(src, "*")) if os.path.basename(f) not in ("patch.diff", "meta.json", "property.txt") and os.path.isfile(f)]
+        raw = meta.get("demo_cmd", "")
+        i = raw.rfind("go test")
+        gotest = raw[i:].strip().strip("`'\"") if i >= 0 else ""
+        gotest = gotest.split("&&")[0].split(";")[0].strip()
+        mm = re.search(r"go test[^()\n]*?\./[\w/.-]+/?", gotest)
+        if mm:
+            gotest = mm.group(0)
+        pk = re.findall(r"\./([\w/.-]+?)/?(?:\s|$)", gotest + " ")
+        target = os.path.join(wt, pk[0]) if pk and os.path.isdir(os.path.join(wt, pk[0])) else None
         placed = []
         for d in demos:
-            first = open(d).readline()
-            m = re.search(r"(?:package directory|belongs in|directory)[^\w./]*([\w./-]+)", first)
-            target = None
-            if os.path.basename(d).endswith("_test.go"):
-                # find the package dir from the demo_cmd or the first-line comment
-                cand = re.findall(r"\./([\w/]+)/?", meta.get("demo_cmd", ""))
-                for c in cand:
-                    if os.path.isdir(os.path.join(wt, c)):
-                        target = os.path.join(wt, c)
-                        break
-                if target is None and m and os.path.isdir(os.path.join(wt, m.group(1).strip("./"))):
-                    target = os.path.join(wt, m.group(1).strip("./"))
-            if target:
+            if os.path.basename(d).endswith("_test.go") and target:
                 shutil.copy(d, target)
                 placed.append(os.path.join(target, os.path.basename(d)))
         res["demo_files"] = [os.path.basename(d) for d in demos]
-        demo_cmd = meta.get("demo_cmd", "")
-        demo_cmd = re.sub(r"cd\s+/tmp/seed-C\d+\s*&&\s*", "", demo_cmd).replace("/tmp/seed-%s" % prop, wt)
-        rc1, out1 = sh(demo_cmd, cwd=wt, env=env, timeout=1200)
+        demo_cmd = gotest
+        rc1, out1 = sh(demo_cmd, cwd=wt, env=env, timeout=1200) if demo_cmd and target else (0, "no runnable demo command")
         sh("git apply -R %s" % patch, cwd=wt)
-        rc2, out2 = sh(demo_cmd, cwd=wt, env=env, timeout=1200)
+        rc2, out2 = sh(demo_cmd, cwd=wt, env=env, timeout=1200) if demo_cmd and target else (1, "no runnable demo command")
         sh("git apply %s" % patch, cwd=wt)
-        res["demo"] = dict(cmd=demo_cmd, fails_with_patch=rc1 != 0, passes_without_patch=rc2 == 0)
+        res["demo"] = dict(cmd=demo_cmd, package=pk[0] if pk else None, fails_with_patch=rc1 != 0, passes_without_patch=rc2 == 0)
         if rc1 == 0 or rc2 != 0:
             res["demo"]["with_tail"] = out1[-600:]
             res["demo"]["without_tail"] = out2[-600:]
